@@ -165,7 +165,9 @@ class CorePacket(Unit):
 
     def replay(self, model, label):
         key = label.split('[')[-1].rstrip(']')
-        r = concrete_check(self.p, key, 0)
+        r = None
+        for variant in (0, 1, 2):
+            r = r or concrete_check(self.p, key, variant)
         return dict(confirmed=r is not None, call='core packet %s at protocol %d against the reference encoder' % (key, self.p),
                     observed=r or 'byte-level check with boundary values conforms')
 
